@@ -1,0 +1,72 @@
+//go:build verif
+
+package ipsets
+
+import "time"
+
+// Verification hook (C16): read-only snapshot of the unexported IPSets state and a
+// constructor wrapper that accepts a plain func for the command factory.
+// Compiled only with -tags verif.
+
+type VerifMeta struct {
+	Type                        string
+	MaxSize, RangeMin, RangeMax int
+	DeleteFailed, ListFailed    bool
+}
+
+type VerifState struct {
+	AllMeta, Desired, Dataplane map[string]VerifMeta
+	HasTracker                  map[string]bool
+	MembersDesired, MembersDP   map[string][]string
+	NextTemp                    uint
+	Dirty, QMust, QBg           []string
+	BgReq, FullReq              bool
+	FilterNil                   bool
+	Filter                      []string
+}
+
+func verifMeta(m dataplaneMetadata) VerifMeta {
+	return VerifMeta{string(m.Type), m.MaxSize, m.RangeMin, m.RangeMax, m.DeleteFailed, m.ListFailed}
+}
+
+func NewIPSetsVerif(c *IPVersionConfig, newCmd func(name string, arg ...string) CmdIface, sleep func(time.Duration), now func() time.Time) *IPSets {
+	return NewIPSetsWithShims(c, verifNoopRecorder{}, newCmd, sleep, now)
+}
+
+type verifNoopRecorder struct{}
+
+func (verifNoopRecorder) RecordOperation(string) {}
+
+func (s *IPSets) VerifState() VerifState {
+	st := VerifState{
+		AllMeta: map[string]VerifMeta{}, Desired: map[string]VerifMeta{}, Dataplane: map[string]VerifMeta{},
+		HasTracker: map[string]bool{}, MembersDesired: map[string][]string{}, MembersDP: map[string][]string{},
+		NextTemp: s.nextTempIPSetIdx, BgReq: s.bgResyncRequested, FullReq: s.fullResyncRequired,
+		FilterNil: s.neededIPSetNames == nil,
+	}
+	for k, v := range s.setNameToAllMetadata {
+		st.AllMeta[k] = verifMeta(v)
+	}
+	s.setNameToProgrammedMetadata.Desired().Iter(func(k string, v dataplaneMetadata) { st.Desired[k] = verifMeta(v) })
+	s.setNameToProgrammedMetadata.Dataplane().Iter(func(k string, v dataplaneMetadata) { st.Dataplane[k] = verifMeta(v) })
+	for k, t := range s.mainSetNameToMembers {
+		st.HasTracker[k] = true
+		t.Desired().Iter(func(m IPSetMember) { st.MembersDesired[k] = append(st.MembersDesired[k], m.String()) })
+		t.Dataplane().Iter(func(m IPSetMember) { st.MembersDP[k] = append(st.MembersDP[k], m.String()) })
+	}
+	for k := range s.ipSetsWithDirtyMembers.All() {
+		st.Dirty = append(st.Dirty, k)
+	}
+	for e := s.resyncQueue.must.Front(); e != nil; e = e.Next() {
+		st.QMust = append(st.QMust, e.Value.(string))
+	}
+	for e := s.resyncQueue.background.Front(); e != nil; e = e.Next() {
+		st.QBg = append(st.QBg, e.Value.(string))
+	}
+	if s.neededIPSetNames != nil {
+		for k := range s.neededIPSetNames.All() {
+			st.Filter = append(st.Filter, k)
+		}
+	}
+	return st
+}
